@@ -1176,3 +1176,265 @@ Proof.
   inversion He' as [? ? ? ? ? ? Hns' Hx' Hy'|]; subst.
   vm_compute in Hx'. vm_compute in Hy'. congruence.
 Qed.
+
+(** * Part G: substitution completeness — no calibration variable survives *)
+
+Lemma assoc_last_acc {A} v (l : list (N * A)) : forall acc x,
+  fold_left (fun acc kx => if N.eqb (fst kx) v then Some (snd kx) else acc) l acc = Some x ->
+  acc = Some x \/ In (v, x) l.
+Proof.
+  induction l as [|[k y] t IH]; cbn; intros acc x H; [auto|].
+  apply IH in H. destruct H as [H|H]; [|auto].
+  destruct (N.eqb k v) eqn:E; [|auto]. apply N.eqb_eq in E. inversion H; subst. auto.
+Qed.
+
+Lemma assoc_last_some_stays {A} v (l : list (N * A)) : forall a,
+  exists x, fold_left (fun acc kx => if N.eqb (fst kx) v then Some (snd kx) else acc) l (Some a) = Some x.
+Proof.
+  induction l as [|[k y] t IH]; cbn; intro a; [eauto|]. destruct (N.eqb k v); apply IH.
+Qed.
+
+Lemma assoc_last_In {A} v (l : list (N * A)) x : assoc_last v l = Some x -> In (v, x) l.
+Proof. unfold assoc_last. intro H. apply assoc_last_acc in H. destruct H; [discriminate | auto]. Qed.
+
+Lemma assoc_last_exists {A} v (l : list (N * A)) : forall acc y,
+  In (v, y) l -> exists x, fold_left (fun acc kx => if N.eqb (fst kx) v then Some (snd kx) else acc) l acc = Some x.
+Proof.
+  induction l as [|[k z] t IH]; intros acc y H; [destruct H|]. cbn. destruct H as [H|H].
+  - inversion H; subst. rewrite N.eqb_refl. apply assoc_last_some_stays.
+  - eapply IH; eauto.
+Qed.
+
+Lemma forallb2_length {A B} (f : A -> B -> bool) : forall l1 l2, forallb2 f l1 l2 = true -> length l1 = length l2.
+Proof.
+  induction l1 as [|x t IH]; intros [|y u] H; cbn in *; try discriminate; auto.
+  apply andb_true_iff in H. destruct H. f_equal. auto.
+Qed.
+
+Lemma qubit_bindings_In : forall cqs gqs v g, In (v, g) (qubit_bindings cqs gqs) -> In g gqs.
+Proof.
+  induction cqs as [|[n|w] t IH]; intros [|y u] v g H; cbn in H; try contradiction.
+  - right. eauto.
+  - destruct H as [H|H]; [inversion H; subst; left; reflexivity | right; eauto].
+Qed.
+
+Lemma qubit_bindings_bound : forall cqs gqs v,
+  length cqs = length gqs -> In v (qubit_vars cqs) -> exists g, In (v, g) (qubit_bindings cqs gqs).
+Proof.
+  induction cqs as [|[n|w] t IH]; intros [|y u] v Hl H; cbn in *; try discriminate; try contradiction.
+  - apply IH; auto.
+  - destruct H as [->|H]; [eauto|]. destruct (IH u v) as [g Hg]; auto. eauto.
+Qed.
+
+Lemma param_bindings_In : forall cps gps v g, In (v, g) (param_bindings cps gps) -> In g gps.
+Proof.
+  induction cps as [|c t IH]; intros gps v g H.
+  - destruct gps; cbn in H; contradiction.
+  - destruct gps as [|y u]; [destruct c; cbn in H; contradiction|].
+    destruct c; cbn in H; try (right; eapply IH; exact H).
+    destruct H as [H|H]; [inversion H; subst; left; reflexivity | right; eapply IH; exact H].
+Qed.
+
+Lemma expr_closed_no_vars e : expr_has_var e = false -> expr_vars e = [].
+Proof.
+  induction e; cbn; intro H; try reflexivity; try discriminate; auto.
+  apply orb_false_iff in H. destruct H. rewrite IHe1, IHe2; auto.
+Qed.
+
+Lemma param_bindings_bound : forall cps gps v,
+  length cps = length gps ->
+  forallb (fun e => match e with EVar _ => true | _ => negb (expr_has_var e) end) cps = true ->
+  In v (flat_map expr_vars cps) -> exists g, In (v, g) (param_bindings cps gps).
+Proof.
+  induction cps as [|c t IH]; intros [|y u] v Hl Hs H; cbn in *; try discriminate; try contradiction.
+  apply andb_true_iff in Hs. destruct Hs as [Hc Ht]. apply in_app_or in H.
+  assert (Hrest : In v (flat_map expr_vars t) -> exists g, In (v, g) (param_bindings (c :: t) (y :: u))).
+  { intro Hv. destruct (IH u v) as [g Hg]; auto. exists g. destruct c; cbn; auto. }
+  destruct H as [H|H]; [|auto].
+  destruct c; cbn in H; try contradiction;
+    try (apply negb_true_iff in Hc; apply expr_closed_no_vars in Hc; cbn in Hc; rewrite Hc in H; contradiction).
+  destruct H as [->|[]]. cbn. eauto.
+Qed.
+
+Lemma esub_closed pm e :
+  (forall v, In v (expr_vars e) -> exists x, assoc_last v pm = Some x /\ expr_has_var x = false) ->
+  expr_has_var (esub pm e) = false.
+Proof.
+  induction e; cbn; intro H; try reflexivity.
+  - destruct (H v) as [x [Hx Hc]]; [left; reflexivity|]. rewrite Hx. exact Hc.
+  - auto.
+  - apply orb_false_iff. split; [apply IHe1 | apply IHe2]; intros v Hv; apply H; apply in_or_app; auto.
+  - auto.
+Qed.
+
+Lemma subst_instr_qubits fq fe i :
+  instr_qubits (subst_exprs fe (subst_qubits fq i)) = map fq (instr_qubits i).
+Proof.
+  destruct i as [nm ps qs|mn q t|[q|]|qs|qs fs d|b f w|b f m w|b f d m|k f e|f g|d s|d s o|nm ty ln|nm args data|k];
+    cbn; try reflexivity. rewrite map_app. reflexivity.
+Qed.
+
+Lemma subst_instr_exprs fq fe i :
+  instr_exprs (subst_exprs fe (subst_qubits fq i)) = map fe (instr_exprs i).
+Proof.
+  destruct i as [nm ps qs|mn q t|[q|]|qs|qs fs d|b f w|b f m w|b f d m|k f e|f g|d s|d s o|nm ty ln|nm args data|k];
+    cbn; try reflexivity; rewrite !map_map; reflexivity.
+Qed.
+
+Lemma retarget_qubits f t i : instr_qubits (retarget f t i) = instr_qubits i.
+Proof.
+  destruct i; cbn; try reflexivity.
+  - destruct t, f; try reflexivity. destruct (N.eqb (fst m) n); reflexivity.
+  - destruct (N.eqb nm load_memory && option_eqb pdata_eqb data (option_map PName f)); [destruct t|]; reflexivity.
+Qed.
+
+Lemma retarget_exprs f t i : instr_exprs (retarget f t i) = instr_exprs i.
+Proof.
+  destruct i; cbn; try reflexivity.
+  - destruct t, f; try reflexivity. destruct (N.eqb (fst m) n); reflexivity.
+  - destruct (N.eqb nm load_memory && option_eqb pdata_eqb data (option_map PName f)); [destruct t|]; reflexivity.
+Qed.
+
+Lemma existsb_false_forall {A} (f : A -> bool) l : existsb f l = false <-> forall x, In x l -> f x = false.
+Proof.
+  split.
+  - intros H x Hx. destruct (f x) eqn:E; [|reflexivity].
+    assert (existsb f l = true) by (apply existsb_exists; eauto). congruence.
+  - intro H. destruct (existsb f l) eqn:E; [|reflexivity].
+    apply existsb_exists in E. destruct E as [x [Hx Hf]]. rewrite H in Hf; auto.
+Qed.
+
+Lemma closed_instr_iff i :
+  closed_instr i = true <->
+  (forall q, In q (instr_qubits i) -> qubit_is_var q = false) /\
+  (forall e, In e (instr_exprs i) -> expr_has_var e = false).
+Proof.
+  unfold closed_instr. rewrite andb_true_iff, !negb_true_iff, !existsb_false_forall. tauto.
+Qed.
+
+Lemma memN_In v l : memN v l = true -> In v l.
+Proof.
+  unfold memN. intro H. apply existsb_exists in H. destruct H as [x [Hx E]]. apply N.eqb_eq in E. subst. exact Hx.
+Qed.
+
+Lemma gate_match_in cs nm ps qs c :
+  gate_match cs nm ps qs = Some c -> In c cs /\ gcal_matches c nm ps qs = true.
+Proof.
+  unfold gate_match.
+  assert (G : forall l acc, fold_left (gate_match_step nm ps qs) l acc = Some c ->
+              (acc = Some c \/ (In c l /\ gcal_matches c nm ps qs = true))).
+  { induction l as [|x t IH]; cbn; intros acc H; [auto|].
+    apply IH in H. destruct H as [H|[H1 H2]]; [|auto].
+    unfold gate_match_step in H. destruct (gcal_matches x nm ps qs) eqn:E; [|auto].
+    destruct acc as [p|].
+    - destruct (Nat.leb (fixed_count p) (fixed_count x)); inversion H; subst; auto.
+    - inversion H; subst; auto. }
+  intro H. apply G in H. destruct H as [H|H]; [discriminate | exact H].
+Qed.
+
+Lemma subst_gate_closed c nm ps qs :
+  gcal_scoped c = true -> gcal_matches c nm ps qs = true -> closed_instr (IGate nm ps qs) = true ->
+  forall j, In j (subst_gate c ps qs) -> closed_instr j = true.
+Proof.
+  intros Hs Hm Hc j Hj. unfold subst_gate in Hj. apply in_map_iff in Hj. destruct Hj as [b [<- Hb]].
+  apply closed_instr_iff in Hc. destruct Hc as [Hcq Hce]. cbn in Hcq, Hce.
+  unfold gcal_scoped in Hs. apply andb_true_iff in Hs. destruct Hs as [Hbody Hparams].
+  rewrite forallb_forall in Hbody. specialize (Hbody b Hb). apply andb_true_iff in Hbody.
+  destruct Hbody as [Hbq Hbe]. rewrite forallb_forall in Hbq, Hbe.
+  unfold gcal_matches in Hm. rewrite !andb_true_iff in Hm. destruct Hm as [[_ Hmq] Hmp].
+  apply forallb2_length in Hmq, Hmp.
+  apply closed_instr_iff. rewrite subst_instr_qubits, subst_instr_exprs. split.
+  - intros q Hq. apply in_map_iff in Hq. destruct Hq as [q0 [<- Hq0]].
+    destruct q0 as [n|v]; [reflexivity|]. cbn.
+    assert (Hv : In v (qubit_vars (gc_qubits c))).
+    { apply memN_In, Hbq. unfold qubit_vars. apply in_flat_map. exists (QV v). split; [exact Hq0 | left; reflexivity]. }
+    destruct (qubit_bindings_bound _ qs v Hmq Hv) as [g Hg].
+    destruct (assoc_last_exists v _ None g Hg) as [x Hx]. fold (assoc_last v (qubit_bindings (gc_qubits c) qs)) in Hx.
+    rewrite Hx. apply Hcq. eapply qubit_bindings_In. apply assoc_last_In. exact Hx.
+  - intros e He. apply in_map_iff in He. destruct He as [e0 [<- He0]]. apply esub_closed.
+    intros v Hv.
+    assert (Hv' : In v (flat_map expr_vars (gc_params c))).
+    { apply memN_In, Hbe. apply in_flat_map. exists e0. auto. }
+    destruct (param_bindings_bound _ ps v Hmp Hparams Hv') as [g Hg].
+    destruct (assoc_last_exists v _ None g Hg) as [x Hx]. fold (assoc_last v (param_bindings (gc_params c) ps)) in Hx.
+    exists x. split; [exact Hx|]. apply Hce. eapply param_bindings_In. apply assoc_last_In. exact Hx.
+Qed.
+
+Lemma subst_meas_closed c mn q t :
+  mcal_scoped c = true -> closed_instr (IMeasure mn q t) = true ->
+  forall j, In j (subst_meas c q t) -> closed_instr j = true.
+Proof.
+  intros Hs Hc j Hj. unfold subst_meas in Hj. apply in_map_iff in Hj. destruct Hj as [b [<- Hb]].
+  apply closed_instr_iff in Hc. destruct Hc as [Hcq _]. cbn in Hcq.
+  unfold mcal_scoped in Hs. rewrite forallb_forall in Hs. specialize (Hs b Hb).
+  apply andb_true_iff in Hs. destruct Hs as [Hbq Hbe]. rewrite forallb_forall in Hbq.
+  apply negb_true_iff in Hbe. rewrite existsb_false_forall in Hbe.
+  apply closed_instr_iff. rewrite retarget_qubits, retarget_exprs.
+  pose proof (subst_instr_qubits (qsub (meas_qubit_bindings c q)) (fun e => e) b) as Eq.
+  pose proof (subst_instr_exprs (qsub (meas_qubit_bindings c q)) (fun e => e) b) as Ee.
+  assert (Eid : forall x, subst_exprs (fun e => e) x = x).
+  { intros [ | | | | | ? ? [? ps] | ? ? ? [? ps] | | | | | | | | ]; cbn; unfold wmap_e; cbn;
+      rewrite ?map_id; try reflexivity.
+    - f_equal. f_equal. induction ps as [|[? ?] ? IH]; cbn; congruence.
+    - f_equal. f_equal. induction ps as [|[? ?] ? IH]; cbn; congruence. }
+  rewrite Eid in Eq, Ee. rewrite Eq, Ee, map_id. split; [|exact Hbe].
+  intros q' Hq'. apply in_map_iff in Hq'. destruct Hq' as [q0 [<- Hq0]].
+  destruct q0 as [n|v]; [reflexivity|]. cbn.
+  assert (Hv : In v (qubit_vars [mc_qubit c])).
+  { apply memN_In, Hbq. unfold qubit_vars. apply in_flat_map. exists (QV v). split; [exact Hq0 | left; reflexivity]. }
+  unfold meas_qubit_bindings. destruct (mc_qubit c) as [n|w]; cbn in Hv; [contradiction|].
+  destruct Hv as [->|[]]. unfold assoc_last. cbn. rewrite N.eqb_refl. apply Hcq. left. reflexivity.
+Qed.
+
+Lemma instantiate_closed cs i body src :
+  cals_scoped cs = true -> closed_instr i = true -> instantiate cs i = Some (body, src) ->
+  forall j, In j body -> closed_instr j = true.
+Proof.
+  intros Hs Hc Hi. unfold cals_scoped in Hs. apply andb_true_iff in Hs. destruct Hs as [Hg Hm].
+  rewrite forallb_forall in Hg, Hm. destruct i; cbn in Hi; try discriminate.
+  - destruct (gate_match (gcals cs) nm ps qs) as [c|] eqn:E; [|discriminate]. inversion Hi; subst.
+    apply gate_match_in in E. destruct E as [Hin Hmatch]. eapply subst_gate_closed; eauto.
+  - destruct (meas_match (mcals cs) mn q t) as [c|] eqn:E; [|discriminate]. inversion Hi; subst.
+    apply meas_match_applicable in E. destruct E as [Hin _]. eapply subst_meas_closed; eauto.
+Qed.
+
+(** If every calibration binds all the variables of its body ([cals_scoped]) then expanding a
+    variable-free instruction yields variable-free instructions only. *)
+Lemma Expands_closed_mut cs :
+  cals_scoped cs = true ->
+  (forall path i r, Expands (instantiate cs) path i r ->
+     closed_instr i = true -> forall out, r = Some out -> forall j, In j out -> closed_instr j = true) /\
+  (forall path l out, ExpandsList (instantiate cs) path l out ->
+     (forall j, In j l -> closed_instr j = true) -> forall j, In j out -> closed_instr j = true).
+Proof.
+  intro Hs. apply Expands_mutind.
+  - intros; discriminate.
+  - intros path i body src out _ Hi _ IH Hc out' E j Hj. inversion E; subst.
+    apply IH; auto. eapply instantiate_closed; eauto.
+  - intros path _ j [].
+  - intros path j t r _ _ _ IH Hl x [<-|Hx]; [apply Hl; left; reflexivity|].
+    apply IH; auto. intros y Hy. apply Hl. right. exact Hy.
+  - intros path j o t r _ IH1 _ IH2 Hl x Hx. apply in_app_or in Hx. destruct Hx as [Hx|Hx].
+    + eapply IH1; eauto. apply Hl. left. reflexivity.
+    + apply IH2; auto. intros y Hy. apply Hl. right. exact Hy.
+Qed.
+
+Lemma expand_program_closed cs fuel p p' :
+  cals_scoped cs = true -> (forall i, In i (body p) -> closed_instr i = true) ->
+  expand_program (instantiate cs) fuel p = Ok p' ->
+  forall j, In j (body p') -> closed_instr j = true.
+Proof.
+  intros Hs Hc H. apply expand_program_spec in H. destruct H as [outs [HF [Hb _]]]. rewrite Hb.
+  intros j Hj. apply filter_In in Hj. destruct Hj as [Hj _]. apply in_concat in Hj.
+  destruct Hj as [o [Ho Hjo]].
+  assert (G : forall src outs, Forall2 (ExpandsTop (instantiate cs)) src outs ->
+              (forall i, In i src -> closed_instr i = true) ->
+              forall o, In o outs -> forall j, In j o -> closed_instr j = true).
+  { clear - Hs. induction 1 as [|i o src outs Hi _ IH]; intros Hc o' Ho' j Hj; [destruct Ho'|].
+    destruct Ho' as [<-|Ho'].
+    - destruct Hi as [Hi|o Hi].
+      + destruct Hj as [<-|[]]. apply Hc. left. reflexivity.
+      + eapply (proj1 (Expands_closed_mut cs Hs)); eauto. apply Hc. left. reflexivity.
+    - eapply IH; eauto. intros y Hy. apply Hc. right. exact Hy. }
+  eapply G; eauto.
+Qed.
